@@ -228,6 +228,13 @@ Definition g_import (L : lang) (s : schema) (i : nat) : bool :=
                      | LGo => true
                      end) (f_imports (getf s i)).
 
+(* [py-attr-collision]: inside the dataclass of a message the renderer adds attributes whose
+   names start with an underscore (_enum_field_proxy__<f>, _get_<f>, _set_<f>, __post_init__) *)
+Definition g_py_attrs (s : schema) (i : nat) : bool :=
+  forallb (fun fd => match fd_def fd with
+                     | DMsg _ _ _ fs => forallb (fun fl => negb (starts_with "_" (conv LPy KMessageField (fl_name fl)))) fs
+                     | _ => true end) (flat_file (getf s i)).
+
 (* [go-unused-import] *)
 Definition g_go_used (s : schema) (i : nat) : bool :=
   forallb (fun mj => existsb (fun r => match r_via r with [m] => String.eqb m (fst mj) | _ => false end)
